@@ -70,8 +70,68 @@ func (w *verifC14World) genProducers(f int) {
 	}
 }
 
+// producers view of topic f when both peers announce ONE node name (node 0's): a tombstone names
+// the node and hits every registration that exists at that moment, so the peers that are to be
+// tombstoned register first, one tombstone call follows, and the peers that are to be plainly
+// registered come afterwards (this is how "one of two same-named producers is tombstoned" arises)
+func (w *verifC14World) genProducersShared(f int, full bool) {
+	var sel [verifC14NP]int
+	any, anyTomb := false, false
+	for p := 0; p < verifC14NP; p++ {
+		if w.m.conn[p] {
+			sel[p] = verifrt.Choice("reg", 3)
+			any = any || sel[p] > 0
+			anyTomb = anyTomb || sel[p] == 2
+		}
+	}
+	if !full {
+		// quick tier: the two same-named connections are interchangeable (no operation looks at
+		// hostname, tcp port or remote address), so one of each mirrored pair of states is taken;
+		// the operation that follows is still tried for either peer
+		verifrt.Assume(sel[1] <= sel[0])
+	}
+	for p := 0; p < verifC14NP; p++ {
+		if sel[p] == 2 {
+			w.register(p, f, -1)
+		}
+	}
+	if anyTomb {
+		w.tombstone(f, 0)
+	}
+	for p := 0; p < verifC14NP; p++ {
+		if sel[p] == 1 {
+			w.register(p, f, -1)
+		}
+	}
+	if full && !any && verifrt.Choice("bareTopic", 2) == 1 {
+		w.createTopic(f)
+	}
+}
+
+// The ephemeral topic f has lost its key while channel keys of it are still there: a producer
+// registered the topic with the chosen channel(s) and then unregistered the topic (what nsqd sends
+// when the topic is deleted there). The statement pins that the unused ephemeral TOPIC name
+// disappears; its channels stay listed by /channels until something removes them.
+func (w *verifC14World) genVanishedTopic(f int, nch int) {
+	first := 0
+	if nch < verifC14NC {
+		first = verifrt.Choice("genChan", verifC14NC)
+	}
+	for i := 0; i < nch; i++ {
+		c := (first + i) % verifC14NC
+		if nch == 1 || verifrt.Choice("vreg", 2) == 1 {
+			w.register(0, f, c)
+		}
+	}
+	w.unregister(0, f, -1)
+}
+
 // channels view of topic f; nch = number of channels in a general state (the rest absent)
 func (w *verifC14World) genChannels(f int, nch int) {
+	if f == 1 && w.m.conn[0] && verifrt.Choice("vanished", 2) == 1 {
+		w.genVanishedTopic(f, nch)
+		return
+	}
 	var reg [verifC14NP]bool
 	any := false
 	for p := 0; p < verifC14NP; p++ {
@@ -137,6 +197,7 @@ func verifC14StepChannels(full bool) {
 	w.genChannels(f, nch)
 	w.step(kind)
 	w.witnessDropped()
+	w.reach(1, "step-delete-of-a-topic-without-key-that-still-has-channels", w.sawDeleteOfKeyless)
 	w.checkKeys()
 	if full {
 		// also the channel list inside /lookup (forks on the producers' activity)
@@ -144,6 +205,53 @@ func verifC14StepChannels(full bool) {
 	}
 	w.reach(1, "step-ephemeral-key-removed-by-last-unregister", w.sawEphemeralRemoved)
 	w.reach(1, "step-disconnect-ran-exit-path", w.sawDisconnect)
+}
+
+// Two connections that announce the SAME node name (see verifC14Announce), both connected, the
+// focus topic in every producers-view state - each of the two same-named peers unregistered /
+// registered / registered and tombstoned. Then one operation, and every endpoint against the
+// model. What the statement says about names: the tombstone call names a node, so afterwards
+// /lookup of the topic lists NO registration carrying that name and /nodes flags the topic as
+// tombstoned for EVERY peer carrying it; everything else - REGISTER, UNREGISTER (lapses the
+// tombstone of "that producer" only), PING, disconnect - is per connection.
+// Quick tier: the two operations whose meaning involves the name or the tombstone (tombstone of
+// any node name, topic-level UNREGISTER by either peer) aimed at the focus topic, alias 1.
+// Thorough: every operation with every operand, both aliases, and both peers also produce the
+// other topic (the frame: a tombstone hides the named producer "for the named topic" only; the
+// quick tier has that frame with distinct names in VerifC14_StepFromAnyProducerState).
+func verifC14StepSharedName(full bool) {
+	w := verifC14NewWorld()
+	w.wit = 9
+	w.alias = 1
+	if full {
+		w.alias = 1 + verifrt.Choice("alias", 2)
+	} else {
+		w.kinds = []int{9, 2}
+		w.topicLevel = true
+	}
+	kind := w.pickKind()
+	f := verifrt.Choice("focus", verifC14NT)
+	if !full {
+		w.onlyTopic = f
+	}
+	w.connect(0)
+	w.connect(1)
+	if full {
+		w.register(0, 1-f, -1)
+		w.register(1, 1-f, -1)
+	}
+	w.genProducersShared(f, full)
+	w.step(kind)
+	// (witnesses about the history are stated before the queries)
+	w.reach(1, "shared-name-one-tombstone-hid-two-producers", kind == 9 && w.sawTombstoneHitTwo)
+	one := w.m.tomb[f][0] != w.m.tomb[f][1]
+	w.reach(1, "shared-name-only-one-of-the-two-is-tombstoned", one)
+	w.checkKeys()
+	w.checkTimed()
+}
+
+func VerifC14_StepSharedNodeName() {
+	verifrt.Atomic(func() { verifC14StepSharedName(verifrt.Bound("fullProduct", 0, 1) == 1) })
 }
 
 func VerifC14_StepFromAnyProducerState() {
